@@ -24,6 +24,7 @@ MODULES_SEEN = []
 ENV = {'map': None}         # harness-supplied environment for os.getenv (None = real)
 INET6 = {'fn': None}        # harness-supplied stub for socket.inet_pton(AF_INET6, sym)
 STUBS_USED = set()
+FUNC_STUBS = {}          # python function -> replacement used when an argument is symbolic
 
 _BUILTIN_METH = type(''.join)
 _KEYS_TYPES = (type({}.keys()), type({}.items()), type({}.values()))
@@ -285,6 +286,9 @@ def _vf_call(f, *a, **k):
     if tf is types.FunctionType or tf is types.MethodType:
         if f is re.compile:
             return RxWrap(*a, **k)
+        if FUNC_STUBS and tf is types.FunctionType and f in FUNC_STUBS and any(_sym(x) for x in a):
+            STUBS_USED.add(getattr(f, '__module__', '?') + '.' + f.__name__)
+            return FUNC_STUBS[f](*a, **k)
         if f is os.getenv:
             return _getenv(*a, **k)
         if f is copy.copy:
